@@ -249,6 +249,7 @@ func (d *mapDecoder) DecodePath(ctx *RuntimeContext, cursor, depth int64) ([][]b
 			return nil, 0, err
 		}
 		valueStart := cursor
+		selected := len(ret)
 		if found {
 			if child != nil {
 				oldPath := ctx.Option.Path.node
@@ -277,7 +278,12 @@ func (d *mapDecoder) DecodePath(ctx *RuntimeContext, cursor, depth int64) ([][]b
 			cursor = c
 		}
 		if node.recursive() {
-			// recursive descent: after the member itself, whatever matches inside its value
+			// recursive descent: after the member itself, whatever matches inside its value. The
+			// second walk over the value unescapes keys and strings in place, so what has just been
+			// selected from it must no longer share the buffer.
+			for i := selected; i < len(ret); i++ {
+				ret[i] = append([]byte(nil), ret[i]...)
+			}
 			paths, _, err := d.valueDecoder.DecodePath(ctx, valueStart, depth)
 			if err != nil {
 				return nil, 0, err
